@@ -13,8 +13,8 @@ NT = 6
 E = 1e-4
 DELAYS = [0, 0, 0, 1e-3, 0.05, 0.1 - E, 0.1, 0.1 + E, 0.15, 0.3, 1.0]
 SHORT = [0, 0, 1e-3, 0.05, 0.1]
-ASYNC_KINDS = ['async', 'async', 'async', 'amethod', 'aclassm']
-SYNC_KINDS = ['sync', 'smethod', 'sclassm']
+ASYNC_KINDS = ['async', 'async', 'async', 'amethod', 'aclassm', 'abusm']
+SYNC_KINDS = ['sync', 'smethod', 'sclassm', 'sbusm']
 EXCS = ['ValueError', 'KeyError', 'RuntimeError', 'Custom', 'LoopClosed', 'NoLoop', 'OSError', 'ZeroDivisionError', 'Unhashable', 'TwoArg', 'Chained']
 EXCS_ALL = EXCS + ['TimeoutError']  # a user-raised TimeoutError is treated by the library as a handler timeout (cancels pending child results)
 
@@ -258,6 +258,9 @@ def stop_base(rng: random.Random, i: int) -> dict:
     if nb > 1:
         sc['handlers'].append({'bus': 1, 'pat': 1, 'kind': 'async', 'prog': [['sleep', rng.choice([0.15, 0.3, 1.0])], ['disp', 2, 1, 'await', rng.choice([None, 0]), {}]]})
     sc['actors'].append([['many', 0, 0, rng.choice([2, 4, 8])]])
+    for h in sc['handlers']:
+        if h['kind'][0] == 'a' and rng.random() < 0.3:
+            h['cleanup'] = rng.choice([0.15, 0.4, 1.0])  # slow to react to cancellation: stop() must not wait for that
     return sc
 
 
@@ -280,7 +283,8 @@ def stop_derive(sc: dict, t: float, rng: random.Random):
 def cancel_derive(sc: dict, t: float, rng: random.Random):
     nb = len(sc['buses'])
     b = rng.randrange(nb)
-    sc['actors'] = sc['actors'] + [[['sleep', t], ['cancel_runloop', b, 1.0]]]
+    # (the harness waits long; the oracle's bound is 1 virtual second plus the time the handlers cancelled by it needed to unwind)
+    sc['actors'] = sc['actors'] + [[['sleep', t], ['cancel_runloop', b, 1.0 if not any(h.get('cleanup') for h in sc['handlers']) else 40.0]]]
     sc['no_idle_probe'] = True
     yield sc
 
@@ -399,6 +403,24 @@ def waitfor_derive(sc: dict, t: float, rng: random.Random):
             op.append(None)
         op[5] = dict(op[5] or {}, wf_at=t)
     yield sc
+
+
+def manual_step_scenario(rng: random.Random, i: int) -> dict:
+    """A handler drives another bus by hand, `await asyncio.wait_for(bus.step(), T)`, with T shorter or longer than the event it
+    picks up, and then goes on with plain work while other buses have events waiting for the lock."""
+    nb = rng.choice([2, 3, 3])
+    buses = [{'name': f'B{k}', 'par': rng.random() < 0.15, 'lazy': False, 'hist': None} for k in range(nb)]
+    tb = 1
+    hs = [{'bus': 0, 'pat': 0, 'kind': 'async', 'prog': [['sleep', rng.choice([0.02, 0.05])], ['step', tb, rng.choice([0.05, 0.1, 0.15, 0.5, 1.0])], ['sleep', rng.choice([0.2, 0.5])],
+                                                            ['step', tb, rng.choice([0.05, 0.5])], ['sleep', 0.1]]}]
+    for b in range(1, nb):
+        hs.append({'bus': b, 'pat': 1, 'kind': 'async', 'prog': [['sleep', rng.choice([0.02, 0.12, 0.3])]], 'cleanup': rng.choice([0, 0, 0.15])})
+        if rng.random() < 0.4:
+            hs.append({'bus': b, 'pat': 1, 'kind': 'async', 'prog': [['disp', 2, b, rng.choice(['fire', 'await']), None, {}]]})
+        hs.append({'bus': b, 'pat': 2, 'kind': 'async', 'prog': [['sleep', 0.05]]})
+    hs.append({'bus': 0, 'pat': 1, 'kind': 'async', 'prog': [['sleep', 0.05]]})
+    actors = [[['disp', 0, 0, 'await', 0, {}]], [['disp', 1, rng.randrange(1, nb), 'fire', rng.choice([0, 0.01]), {}] for _ in range(rng.randint(2, 5))] + [['disp', 1, 0, 'fire', 0, {}]]]
+    return {'seed': rng.randrange(1 << 30), 'buses': buses, 'fwd': [], 'handlers': hs, 'actors': actors}
 
 
 def double_cancel_base(rng: random.Random, i: int) -> dict:
